@@ -118,6 +118,9 @@ pub struct WalWriter {
     entry_count: usize,
     bytes_written: u64,
     error_handler: Option<Arc<WalErrorHandler>>,
+    /// Set when a failed append could not be rolled back. The file may then end in a
+    /// partial or unacknowledged frame, so nothing may be appended (or retried) behind it.
+    poisoned: bool,
 }
 
 impl WalWriter {
@@ -157,6 +160,7 @@ impl WalWriter {
             entry_count: 0,
             bytes_written: 4, // Magic header
             error_handler,
+            poisoned: false,
         })
     }
 
@@ -192,23 +196,42 @@ impl WalWriter {
         self.perform_fsync()
     }
 
+    fn ensure_not_poisoned(&self) -> Result<()> {
+        if self.poisoned {
+            bail!(
+                "WAL segment {} is unusable: an earlier failed append could not be rolled back; \
+                 restart required before writes can resume",
+                self.path.display()
+            );
+        }
+        Ok(())
+    }
+
     fn append_internal_with_rollback(
         &mut self,
         entry: &WalEntry,
         stable_offset: u64,
         stable_entry_count: usize,
     ) -> Result<()> {
+        self.ensure_not_poisoned()?;
         match self.append_internal(entry) {
             Ok(()) => Ok(()),
             Err(write_err) => {
                 let write_err_msg = write_err.to_string();
-                self.rollback_to_stable_state(stable_offset, stable_entry_count)
-                    .with_context(|| {
+                if let Err(rollback_err) =
+                    self.rollback_to_stable_state(stable_offset, stable_entry_count)
+                {
+                    // Retrying (or appending anything else) behind bytes that could not be
+                    // removed would produce a log that replays differently from what was
+                    // acknowledged.
+                    self.poisoned = true;
+                    return Err(rollback_err).with_context(|| {
                         format!(
                             "WAL write failed ({}); rollback to offset {} failed",
                             write_err_msg, stable_offset
                         )
-                    })?;
+                    });
+                }
                 Err(write_err)
             }
         }
@@ -327,17 +350,22 @@ impl WalWriter {
         stable_offset: u64,
         stable_entry_count: usize,
     ) -> Result<()> {
+        self.ensure_not_poisoned()?;
         match self.append_batch_internal(entries) {
             Ok(()) => Ok(()),
             Err(write_err) => {
                 let write_err_msg = write_err.to_string();
-                self.rollback_to_stable_state(stable_offset, stable_entry_count)
-                    .with_context(|| {
+                if let Err(rollback_err) =
+                    self.rollback_to_stable_state(stable_offset, stable_entry_count)
+                {
+                    self.poisoned = true;
+                    return Err(rollback_err).with_context(|| {
                         format!(
                             "WAL batch write failed ({}); rollback to offset {} failed",
                             write_err_msg, stable_offset
                         )
-                    })?;
+                    });
+                }
                 Err(write_err)
             }
         }
